@@ -15,7 +15,7 @@ RULE = ("One of 12 component classes is drawn, then its parameters (well-typed, 
         "Non-trivial = construction accepted, all three elaborations ran, and the component has >= 2 "
         "sub-objects (registers, windows, initiators, sources, pins, fields). Distinct = canonical JSON.")
 BUDGET = {"quick": (16, 400), "thorough": (16, 6000)}
-ESSENTIAL = ["cls:" + c for c in components.CLASSES] + ["refused_at_construction", "packed:ok", "packed:refused"]
+ESSENTIAL = ["cls:" + c for c in components.CLASSES] + ["refused_at_construction", "packed:ok", "packed:refused", "twin_add_compared"]
 ASSUMPTIONS = [
     "parameters are well-typed (ints for widths/counts, strings for modes/features, shape-like objects for shapes)",
     "deliberate refusal = ValueError/TypeError raised by an explicit `raise` statement inside amaranth_soc or amaranth whose raised class is the class caught",
@@ -185,6 +185,58 @@ def _check_many(spec, stats):
     stats.nontrivial = True
 
 
+def _extend(cls, comp):
+    """One more add() on a decoder / arbiter / multiplexer map; returns a comparable outcome."""
+    from amaranth_soc import csr, wishbone
+    from amaranth_soc.memory import MemoryMap
+    from vlib.gens import MockReg
+    try:
+        if cls == "csr_decoder":
+            sub = csr.Interface(addr_width=1, data_width=comp.bus.data_width, path=("late",))
+            sub.memory_map = MemoryMap(addr_width=1, data_width=comp.bus.data_width)
+            return ("ok", comp.add(sub, name=("late_window",)))
+        if cls == "wb_decoder":
+            gb = (comp.bus.data_width // comp.bus.granularity).bit_length() - 1
+            sub = wishbone.Interface(addr_width=0, data_width=comp.bus.data_width, granularity=comp.bus.granularity, path=("late",))
+            sub.memory_map = MemoryMap(addr_width=max(1, gb), data_width=comp.bus.granularity)
+            return ("ok", comp.add(sub, name=("late_window",)))
+        if cls == "wb_arbiter":
+            feat = set(f.value for f in comp.bus.features)
+            intr = wishbone.Interface(addr_width=comp.bus.addr_width, data_width=comp.bus.data_width,
+                                      granularity=comp.bus.data_width, features=sorted(feat & {"err", "rty"}), path=("late",))
+            return ("ok", comp.add(intr))
+        if cls == "mux":
+            return ("ok", comp.bus.memory_map.add_resource(MockReg(1, "rw"), name=("late_reg",), size=1))
+    except (ValueError, TypeError) as e:
+        return ("refused", type(e).__name__)
+    return None
+
+
+def _still_extensible(spec, built, stats, cls):
+    """Elaboration must not alter the component's metadata: an add() that a never-elaborated twin
+    accepts (or refuses) must have the same outcome on the instance that was elaborated three times."""
+    if cls not in ("csr_decoder", "wb_decoder", "wb_arbiter", "mux"):
+        return
+    twin = components.build(spec)
+    a = _extend(cls, built.comp)
+    b = _extend(cls, twin.comp)
+    if a != b:
+        raise Violation(f"C19/purity/add-after-elaboration/{cls}", f"after three elaborations add() gives {a}, a "
+                        f"never-elaborated twin built from the same parameters gives {b}")
+    stats.label("twin_add_compared")
+    if a and a[0] == "ok":
+        # and the extended component still elaborates
+        try:
+            rtlil.convert(built.comp, ports=built.ports)
+        except Exception as e:
+            if deliberate_refusal(e):
+                return
+            if classify_exception(e) is None:
+                raise
+            raise Violation(f"C19/elab-after-add/{_site(e)}", f"{cls}: elaboration after a further add() failed: "
+                            f"{type(e).__name__}: {str(e)[:200]}")
+
+
 def _check(spec, stats, cls):
     if cls == "mux_packed":
         return _check_packed(spec, stats)
@@ -244,6 +296,7 @@ def _check(spec, stats, cls):
                         f"than #1 (lengths {[len(t) for t in texts]})")
     stats.label("elaborated_3x")
     stats.label("ok:" + cls)
+    _still_extensible(spec, built, stats, cls)
     stats.add("rtlil_bytes", len(texts[0]))
     stats.nontrivial = built.subobjects >= 2
 
